@@ -164,6 +164,10 @@ func takeCPUs(
 			})
 			cpusPerCore := acc.topology.CPUsPerCore()
 			for _, cpus := range freeCPUs {
+				// the previous socket may have left less than one physical core to allocate
+				if !acc.needs(cpusPerCore) {
+					break
+				}
 				for i := 0; i < len(cpus); i += cpusPerCore {
 					acc.take(cpus[i : i+cpusPerCore]...)
 					if acc.isSatisfied() {
